@@ -78,4 +78,17 @@ CLAIMS["C17"] = {
     "note": "Trusts: sorted/zip/min/max builtins, scipy cdist orientation; one `hasattr(numpy, name)` query against /venv's numpy (inspects numpy, not artap).",
 }
 
+CLAIMS["C04"] = {
+    "category": "other",
+    "technique": "path enumeration of Archive.add with a finite verdict domain (decision table per scanned member, effect counting, index-correction tracking); order algebra for truncate; ownership scan of the content list",
+    "text": "Decides on every path of Archive.add (scan loop unrolled 0-2 members, comparator verdict restricted to {0,1,2}) the per-member "
+            "action table - newcomer dominates: that member and only it is deleted (index into the live list corrected by the running "
+            "deletion count, scan over a snapshot, scan continues); member dominates or equal vector: rejected; otherwise nothing - and that "
+            "the newcomer is appended exactly once iff never rejected, with the success flag equal to that. truncate is decided by an order "
+            "algebra over sorted/reverse/slice (largest feature values survive). Only add/truncate/remove mutate the content list. With "
+            "C01 these local rules give the global invariant for every add sequence by induction; the induction itself is the usual "
+            "argument and is not re-proved.",
+    "note": "Trusts: comparator verdicts in {0,1,2} and a strict partial order (C01); list snapshot semantics; scan of 0-2 members is representative (uniform loop body).",
+}
+
 NOT_APPLICABLE = {}
